@@ -145,7 +145,12 @@ func c07ExtraOracle(before, after []*index.Reader) string {
 		ids := vidx.SortedIDs(ObsWithPayload)
 		picks := []uint64{}
 		if n := len(ids); n > 0 {
-			picks = append(picks, ids[0], ids[n/2], ids[n-1])
+			picks = append(picks, ids[0], ids[n-1])
+		}
+		// payload filters read the payload of every stream: only on stacks of moderate size (cost only)
+		total := 0
+		for _, o := range ObsWithPayload {
+			total += len(o.Payload[0]) + len(o.Payload[1])
 		}
 		hexRe := func(b []byte) string {
 			var sb strings.Builder
@@ -164,13 +169,18 @@ func c07ExtraOracle(before, after []*index.Reader) string {
 			}
 			add(fmt.Sprintf("cport:%d", o.CPort))
 			add(fmt.Sprintf("-sport:%d cbytes:%d:", o.SPort, o.ClientBytes))
-			add(fmt.Sprintf("chost:%s or id:%d:", o.Client, id))
-			add(fmt.Sprintf("host:%s -id:%d", o.Server, id))
+			if len(ids) <= 300 {
+				// a host filter costs hosts x hosts steps per host group: only on small populations (cost only)
+				add(fmt.Sprintf("chost:%s or id:%d:", o.Client, id))
+				add(fmt.Sprintf("host:%s -id:%d", o.Server, id))
+			}
 			add(fmt.Sprintf("protocol:%s sbytes::%d", strings.ToLower(o.Protocol), o.ServerBytes))
 			for dir, key := range []string{"cdata", "sdata"} {
-				if pl := o.Payload[dir]; len(pl) >= 3 && len(pl) < 70000 {
+				if pl := o.Payload[dir]; len(pl) >= 3 && total < 200000 {
 					add(fmt.Sprintf(`%s:"%s"`, key, hexRe(pl[len(pl)-3:])))
-					add(fmt.Sprintf(`-%s:"%s"`, key, hexRe(pl[:2])))
+					if dir == 0 {
+						add(fmt.Sprintf(`-%s:"%s"`, key, hexRe(pl[:2])))
+					}
 				}
 			}
 		}
